@@ -298,10 +298,15 @@ MkLet == (IF Cur.kind = "mod" THEN On("module") ELSE On("let")) /\ Building /\ S
 (* values of its signature; a generated module is bound and instantiated       *)
 (* (without overrides, and overriding its first parameter with its own default) *)
 (* - this executes generated bodies without a product of two free statements   *)
+(* the expression that writes a (data) value down: composite example values become list / tuple expressions *)
+RECURSIVE ValExpr(_)
+ValExpr(v) == CASE v.t = "list" -> [e |-> "list", xs |-> [j \in 1..Len(v.es) |-> ValExpr(v.es[j])]]
+                [] v.t = "tuple" -> [e |-> "tuple", flds |-> [j \in 1..Len(v.fs) |-> [nm |-> v.fs[j].nm, ex |-> ValExpr(v.fs[j].val)]]]
+                [] OTHER -> Lit(v)
 SigArgs(ps) ==
   LET hits == {q \in 1..Len(SigPool) : [z \in 1..Len(SigPool[q]) |-> SigPool[q][z].nm] = ps}
       sg == SigPool[CHOOSE q \in hits : \A r \in hits : q <= r]
-  IN [z \in 1..Len(sg) |-> Lit(sg[z].val)]
+  IN [z \in 1..Len(sg) |-> ValExpr(sg[z].val)]
 MkLetUse == On("letuse") /\ Building /\ Cur.kind = "top" /\ Len(Stk) = 1 /\ NGen + 2 <= MaxStmts /\ Len(Names) >= Cur.last + 2 /\
             LET c == Cur
                 t == c.stk[1]
